@@ -163,6 +163,7 @@ pub const C_CAST: &str = "metal-cast-not-allowed";
 pub const C_BUILTIN_ARGS: &str = "metal-builtin-argument-types";
 pub const C_FLOAT_REM: &str = "metal-remainder-operator-on-floats";
 pub const C_NARROWING: &str = "metal-narrowing-conversion-in-braces";
+pub const C_NARROWING_LITERAL: &str = "metal-narrowing-literal-in-braces";
 
 fn wrap64(n: i128) -> i128 {
     (n as i64) as i128
